@@ -7,7 +7,11 @@ From SP Require Import Run.DispSph Run.DispUbf Run.DispSeq Run.DispCds Run.DispT
 Import ListNotations.
 Open Scope Z_scope.
 
+(* Ops x99 of every family are explorations OUTSIDE the model (argument types, file-system objects, ...):
+   the adapter itself evaluates a statement about the implementation and answers [1] when it holds; the
+   model's side is this constant.  Such streams are labelled `explored only` in the evidence. *)
 Definition run_case (op : Z) (a : args) : args :=
+  if op mod 100 =? 99 then [[0]; [1]] else
   match op / 100 with
   | 1 => run_sph op a
   | 2 => run_ubf op a
